@@ -3,9 +3,10 @@ import SqlfluffVerif.Driver.Pos
 import SqlfluffVerif.Driver.Patch
 import SqlfluffVerif.Driver.Dedupe
 import SqlfluffVerif.Driver.Noqa
+import SqlfluffVerif.Driver.Select
 open SqlfluffVerif SqlfluffVerif.Proto SqlfluffVerif.Driver
 
-def handlers : List (List String → Option String) := [handlePos, handlePatch, handleDedupe, handleNoqa]
+def handlers : List (List String → Option String) := [handlePos, handlePatch, handleDedupe, handleNoqa, handleSelect]
 
 def handle (toks : List String) : String :=
   match toks with
